@@ -85,7 +85,7 @@ def register(CHECKS, H):
     t.append(run("c11_f3", "graph", n="5", vals="1,2", thr="max", dims="auto", mods="2,3", shards=4, timeout=TO))
     t.append(run("c11_d3", "graph", n="2,3,4", vals="1,2", thr="max,inf", dims="auto", mods="2,3", timeout=TO))
     t.append(run("c11_d3", "graph", n="5", vals="1", thr="max", dims="auto", mods="2,3", timeout=TO))
-    t.append(run("c11_f2", "xpoly", free=20, vals="1,2", thr="2,inf", dims="3", mods="2,3", shards=8, timeout=TO))
+    t.append(run("c11_f2", "xpoly", free=17, vals="1,2", thr="2,inf", dims="3", mods="2,3", shards=8, timeout=TO))
     t.append(run("c11_d3", "xpoly", free=12, vals="1,2", thr="inf", dims="3", mods="2,3", shards=2, timeout=TO))
     t.append(run("c11_f3", "rp2", permstep=1, dims="2", mods="2,3", shards=4, timeout=TO))
     t.append(run("c11_d3", "rp2", permstep=30, dims="1,2", mods="2,3,5", shards=2, timeout=TO))
@@ -129,7 +129,7 @@ def register(CHECKS, H):
             "thorough": ("n=5 x {1,2,3} at thresholds {2,3,inf}, dim_max {1,3}, mod {2,3}; n=6 x {1,2} at {1,2,inf}, dim_max 2, mod {2,3}; "
                          "n=5 x {0,1,2} at {0,1,inf}; n=5 x {1,2} full grid with moduli 2,3,5,7; n<=4 full grid with moduli up to 65521; "
                          "grid clouds up to 5 points; edge lists n=5 x {absent,1,2}; RP^2 all 720 relabelings x 8 weightings; large "
-                         "inputs with every weighted graph on 4 embedded vertices; cross-polytope boundaries with 20 free pairs at thresholds "
+                         "inputs with every weighted graph on 4 embedded vertices; cross-polytope boundaries with 17 free pairs at thresholds "
                          "{2,inf} (float) and 12 free pairs (double)"),
         },
         "assumptions": [
